@@ -3,6 +3,7 @@
 //   - /repo/vm/thread.go       <- a copy of the CURRENT thread.go (or of its replacement in $VERIF_OVERLAY)
 //     with two inserted lines: `verifRun := verifRunEnter()` at the top of (*Thread).run() and
 //     `verifDepthProbe(vm, verifRun)` at the top of the dispatch loop.
+//
 // Entries of $VERIF_OVERLAY (deliberate changes under test) are merged into the generated overlay.
 package main
 
